@@ -450,3 +450,359 @@ Proof.
   - apply (Hok f Hf).
   - apply flow_live_iff in Hl. apply Hl.
 Qed.
+
+(* ---------- non-vacuity ---------- *)
+Definition ex_cfg : mwcfg :=
+  default_cfg ex_opts (90 * tk_ns_per_s) true "/saml/acs" false "" false.
+Definition ex_hist : list action :=
+  [ Start "/protected/a" "idxA" "id-A"; Advance (3 * tk_ns_per_s);
+    Start "/protected/b" "idxB" "id-B"; Start "/protected/c" "idxC" "id-C"; Advance (10 * tk_ns_per_s) ].
+Definition ex_m : mw := run (init ex_cfg ex_t0) ex_hist.
+Definition ex_full_jar : jar := map (fun f => (m_prefix ex_cfg +++ fl_index f, fl_cookie f)) (mw_flows ex_m).
+Definition ex_resp (rid : string) : response :=
+  {| r_irt := rid; r_issued := mw_clock ex_m - tk_ns_per_s; r_ok := true; r_assertion := ex_assertion |}.
+
+Example ex_fresh : fresh_draws ex_hist.
+Proof. split; simpl; repeat constructor; simpl; intuition discriminate. Qed.
+
+(* three pending flows; each answer delivered with the full jar completes at its own URL *)
+Example ex_three_flows_complete :
+  map (fun ir => let rp := snd (step ex_m (Deliver (ex_resp (snd ir)) ex_full_jar (fst ir) false)) in
+                 (rp_status rp, rp_location rp, sets_session_b rp))
+      [("idxC", "id-C"); ("idxA", "id-A"); ("idxB", "id-B")]
+  = [(302, LUrl "/protected/c", true); (302, LUrl "/protected/a", true); (302, LUrl "/protected/b", true)].
+Proof. vm_compute. reflexivity. Qed.
+
+(* the same answer without the cookie, with another flow's cookie only, with the
+   cookie renamed, and after the lifetime: the bare 403 *)
+Example ex_refusals :
+  let other := [(m_prefix ex_cfg +++ "idxB", nth 1 (map fl_cookie (mw_flows ex_m)) WGarbage)] in
+  let renamed := [(m_prefix ex_cfg +++ "idxB", nth 2 (map fl_cookie (mw_flows ex_m)) WGarbage)] in
+  snd (step ex_m (Deliver (ex_resp "id-A") [] "idxA" false)) = forbidden
+  /\ snd (step ex_m (Deliver (ex_resp "id-A") other "idxA" false)) = forbidden
+  /\ snd (step ex_m (Deliver (ex_resp "id-A") other "idxB" false)) = forbidden
+  /\ snd (step ex_m (Deliver (ex_resp "id-A") renamed "idxB" false)) = forbidden
+  /\ snd (step (fst (step ex_m (Advance (77 * tk_ns_per_s)))) (Deliver {| r_irt := "id-A"; r_issued := mw_clock ex_m + 70 * tk_ns_per_s; r_ok := true; r_assertion := ex_assertion |} ex_full_jar "idxA" false)) = forbidden
+  /\ rp_status (snd (step (fst (step ex_m (Advance (76 * tk_ns_per_s)))) (Deliver {| r_irt := "id-A"; r_issued := mw_clock ex_m + 70 * tk_ns_per_s; r_ok := true; r_assertion := ex_assertion |} ex_full_jar "idxA" false))) = 302.
+Proof. vm_compute. repeat split; reflexivity. Qed.
+
+Example ex_jar_ok : jar_ok ex_m ex_full_jar.
+Proof.
+  intros n w H. unfold ex_full_jar in H. apply in_map_iff in H. destruct H as (f & E & Hf).
+  injection E as _ <-. apply wo_issued, Hf.
+Qed.
+
+(* ---------- the check evaluated on generated histories is sound ---------- *)
+Lemma location_eqb_eq a b : location_eqb a b = true -> a = b.
+Proof. destruct a, b; simpl; intro H; try discriminate; try reflexivity. apply String.eqb_eq in H; subst; reflexivity. Qed.
+Lemma location_eqb_refl a : location_eqb a a = true.
+Proof. destruct a; simpl; try reflexivity. apply String.eqb_refl. Qed.
+
+Lemma ocookie_eqb_eq a b : ocookie_eqb a b = true -> a = b.
+Proof.
+  destruct a, b; unfold ocookie_eqb; simpl; intro H.
+  repeat (apply andb_true_iff in H; let H' := fresh "E" in destruct H as [H H']).
+  apply String.eqb_eq in H. apply Z.eqb_eq in E8. apply String.eqb_eq in E7. apply String.eqb_eq in E6.
+  apply String.eqb_eq in E5. apply Z.eqb_eq in E4. apply Z.eqb_eq in E3. apply Bool.eqb_prop in E2.
+  apply Bool.eqb_prop in E1. apply String.eqb_eq in E0. apply Z.eqb_eq in E. subst. reflexivity.
+Qed.
+
+Lemma list_eqb_sound {A} (e : A -> A -> bool) : (forall x y, e x y = true -> x = y) ->
+  forall a b, list_eqb e a b = true -> a = b.
+Proof.
+  intros He a; induction a as [|x a IH]; intros [|y b]; simpl; intro H; try reflexivity; try discriminate H.
+  apply andb_true_iff in H; destruct H as [H1 H2]. apply He in H1. apply IH in H2. subst; reflexivity.
+Qed.
+
+Lemma oreply_eqb_eq a b : oreply_eqb a b = true -> a = b.
+Proof.
+  destruct a, b; unfold oreply_eqb; simpl; intro H.
+  repeat (apply andb_true_iff in H; let H' := fresh "E" in destruct H as [H H']).
+  apply Z.eqb_eq in H. apply location_eqb_eq in E2. apply String.eqb_eq in E1.
+  apply (list_eqb_sound _ ocookie_eqb_eq) in E0. apply Bool.eqb_prop in E. subst. reflexivity.
+Qed.
+
+Lemma wire_eqb_refl w : wire_eqb w w = true.
+Proof. destruct w; simpl; [apply token_eqb_refl | reflexivity]. Qed.
+
+(* configurations as samlsp.New builds them: one lifetime, in whole seconds *)
+Definition cfg_wf (cfg : mwcfg) : Prop :=
+  m_track_cookie_age cfg = m_mid cfg /\ c_max_age (m_tcodec cfg) = m_mid cfg
+  /\ (exists k, m_mid cfg = k * tk_ns_per_s) /\ codec_wf (m_tcodec cfg).
+
+Lemma default_cfg_wf o k id secs_ https acs allow dflt post :
+  o_key o = KPriv k id -> o_url o <> "" ->
+  cfg_wf (default_cfg o (secs_ * tk_ns_per_s) https acs allow dflt post).
+Proof.
+  intros Hk Hu. unfold cfg_wf. simpl. repeat split; try reflexivity.
+  - exists secs_; reflexivity.
+  - simpl. unfold verify_sig. simpl. rewrite Hk. destruct k; simpl; rewrite Z.eqb_refl; reflexivity.
+  - exact Hu.
+  - exact Hu.
+Qed.
+
+Lemma sec_shift now k : sec (sec now * tk_ns_per_s + k * tk_ns_per_s) = sec (now + k * tk_ns_per_s).
+Proof.
+  unfold sec. rewrite <- Z.mul_add_distr_r. rewrite Z.div_mul by (unfold tk_ns_per_s; lia).
+  rewrite Z.div_add by (unfold tk_ns_per_s; lia). reflexivity.
+Qed.
+
+Lemma start_flow_spec cfg now u idx rid :
+  cfg_wf cfg ->
+  let o := project (fst (start_flow cfg now u idx rid)) in
+  forallb (cookie_flags_ok cfg false) (or_cookies o) && negb (o_sets_session o)
+  && match or_cookies o with
+     | [c] => (oc_kind c =? 1) && String.eqb (or_relay o) (oc_a c) && String.eqb (oc_c c) u
+     | _ => false
+     end = true.
+Proof.
+  intros (Hage & Hmax & (k & Hk) & _). simpl.
+  unfold cookie_flags_ok; simpl. rewrite !String.eqb_refl, Hage, Z.eqb_refl.
+  destruct (m_acs_https cfg); simpl; rewrite Hmax, Hk, sec_shift, Z.eqb_refl; reflexivity.
+Qed.
+
+(* a delivery that satisfies the premises of C17_interleaving is accepted by the model *)
+Lemma find_some_in {A} (p : A -> bool) l x : find p l = Some x -> In x l /\ p x = true.
+Proof. apply find_some. Qed.
+
+Lemma faithful_accepts m r j relay h f :
+  flows_ok m -> codec_wf (m_tcodec (mw_cfg m)) ->
+  faithful_delivery m r j relay = Some f ->
+  deliver (mw_cfg m) (mw_clock m) r j relay h
+  = accept_reply (mw_cfg m) (mw_clock m) r h (fl_uri f) [clear_cookie (mw_cfg m) relay].
+Proof.
+  intros Hok Hwf H. unfold faithful_delivery in H.
+  destruct (honest_jar_b m j && r_ok r && response_fresh (mw_cfg m) (mw_clock m) r) eqn:E1; [|discriminate].
+  apply andb_true_iff in E1; destruct E1 as [E1 Hfr]. apply andb_true_iff in E1; destruct E1 as [_ Hrok].
+  destruct (relay_flow m j relay) as [f'|] eqn:Er; [|discriminate].
+  destruct (String.eqb (fl_req_id f') (r_irt r) && nonempty relay) eqn:E2; [|discriminate].
+  injection H as ->. apply andb_true_iff in E2; destruct E2 as [Hid Hne]. apply String.eqb_eq in Hid.
+  unfold relay_flow in Er.
+  destruct (jar_get (m_prefix (mw_cfg m) +++ relay) j) as [w|] eqn:Ej; [|discriminate].
+  apply find_some_in in Er. destruct Er as [Hf Hp].
+  apply andb_true_iff in Hp; destruct Hp as [Hp Hl]. apply andb_true_iff in Hp; destruct Hp as [Hi Hw].
+  apply String.eqb_eq in Hi. apply wire_eqb_eq in Hw. subst w.
+  set (cfg := mw_cfg m) in *. set (now := mw_clock m) in *.
+  destruct (Hok f Hf) as [Hc _].
+  assert (Hdec : decode_tracking (m_tcodec cfg) now (fl_cookie f) = Some (flow_tracked f)).
+  { rewrite Hc. apply tracking_lifetime; [assumption|]. apply flow_live_iff, Hl. }
+  assert (Hv : sp_verdict cfg now (possible_ids cfg now j) r = true).
+  { unfold sp_verdict. rewrite Hrok, Hfr. simpl. apply orb_true_iff. right. apply mem_str_in.
+    unfold possible_ids. apply in_or_app. right. rewrite <- Hid.
+    apply in_map_iff. exists (flow_tracked f). split; [reflexivity|]. apply gtr_in.
+    exists (m_prefix cfg +++ relay), (fl_cookie f). split; [apply jar_get_in, Ej|].
+    split; [apply prefixb_app|]. split; [exact Hdec|]. unfold index_of_name. rewrite drop_app. simpl. symmetry; exact Hi. }
+  unfold deliver. fold (possible_ids cfg now j). rewrite Hv. simpl. rewrite Hne.
+  unfold get_tracked_request. rewrite Ej, Hdec. simpl. rewrite Hi, String.eqb_refl. reflexivity.
+Qed.
+
+Lemma session_cookie_flags cfg now a h :
+  cookie_flags_ok cfg h (project_cookie (session_cookie cfg now a h)) = true.
+Proof.
+  unfold cookie_flags_ok; simpl. rewrite !String.eqb_refl.
+  destruct (m_secure cfg || h); reflexivity.
+Qed.
+Lemma clear_cookie_flags cfg h relay :
+  cookie_flags_ok cfg h (project_cookie (clear_cookie cfg relay)) = true.
+Proof. unfold cookie_flags_ok; simpl. apply String.eqb_refl. Qed.
+
+Lemma flow_uri_of_cookie cfg f f' : flow_wf cfg f -> flow_wf cfg f' -> fl_cookie f = fl_cookie f' -> fl_uri f = fl_uri f'.
+Proof.
+  unfold flow_wf. intros H1 H2 E. rewrite H1, H2 in E.
+  apply (f_equal (fun w => match w with WToken t => tk_uri t | WGarbage => "" end)) in E. exact E.
+Qed.
+
+Lemma deliver_spec m r j relay h :
+  flows_ok m -> cfg_wf (mw_cfg m) -> jar_ok m j ->
+  spec_step m (Deliver r j relay h) (project (deliver (mw_cfg m) (mw_clock m) r j relay h)) = true.
+Proof.
+  intros Hok Hcw Hj. destruct Hcw as (_ & _ & _ & Hwf).
+  (* the interleaving clause *)
+  assert (Hfaith : forall o, o = project (deliver (mw_cfg m) (mw_clock m) r j relay h) ->
+            match faithful_delivery m r j relay with
+            | Some f => o_sets_session o && location_eqb (or_loc o) (LUrl (fl_uri f))
+            | None => true end = true).
+  { intros o ->. destruct (faithful_delivery m r j relay) as [f|] eqn:Ef; [|reflexivity].
+    rewrite (faithful_accepts m r j relay h f Hok Hwf Ef). simpl. rewrite String.eqb_refl. reflexivity. }
+  unfold spec_step.
+  destruct (deliver_cases (mw_cfg m) (mw_clock m) r j relay h) as [H|(Hv & Hcases)].
+  - (* refused *)
+    rewrite (Hfaith _ eq_refl). rewrite H. reflexivity.
+  - assert (Hacc : forall uri cks, deliver (mw_cfg m) (mw_clock m) r j relay h = accept_reply (mw_cfg m) (mw_clock m) r h uri cks ->
+              sets_session (snd (step m (Deliver r j relay h)))).
+    { intros uri cks E. simpl. rewrite E. apply accept_sets_session. }
+    rewrite (Hfaith _ eq_refl), andb_true_r.
+    destruct (m_allow_idp (mw_cfg m)) eqn:Hidp.
+    + (* IdP-initiated mode: outside the property; flags and status only *)
+      destruct Hcases as [(_ & H)|[(_ & tr & _ & H)|(_ & _ & _ & H)]]; rewrite H; simpl;
+        rewrite ?session_cookie_flags, ?clear_cookie_flags; reflexivity.
+    + destruct (step m (Deliver r j relay h)) as [m' rp] eqn:Hstep.
+      assert (Hrp : rp = deliver (mw_cfg m) (mw_clock m) r j relay h) by (simpl in Hstep; injection Hstep as _ <-; reflexivity).
+      destruct Hcases as [(He & H)|[(Hne & tr & Hg & H)|(_ & _ & Ha & _)]]; [| |congruence].
+      * (* no relay state *)
+        assert (Hs : sets_session rp) by (rewrite Hrp, H; apply accept_sets_session).
+        destruct (session_needs_own_tracking_cookie m r j relay h m' rp Hok Hj Hidp Hstep Hs)
+          as (Hrok & Hfr & f & Hf & Hi & Hin & _ & Hl).
+        rewrite H; simpl. rewrite session_cookie_flags.  rewrite Hrok, Hfr. simpl.
+        subst relay. simpl. rewrite String.eqb_refl, andb_true_r.
+        unfold own_flow_presented. apply existsb_exists. exists f. split; [exact Hf|].
+        rewrite Hl, andb_true_r. apply andb_true_iff. split; [rewrite Hi; apply String.eqb_refl|].
+        apply existsb_exists. eexists. split; [exact Hin|]. simpl. rewrite String.eqb_refl, wire_eqb_refl. reflexivity.
+      * assert (Hs : sets_session rp) by (rewrite Hrp, H; apply accept_sets_session).
+        destruct (session_needs_own_tracking_cookie m r j relay h m' rp Hok Hj Hidp Hstep Hs)
+          as (Hrok & Hfr & f & Hf & Hi & Hin & _ & Hl).
+        destruct (redirect_target m r j relay h m' rp Hok Hj Hidp Hstep Hs) as [_ Hrt].
+        destruct (Hrt Hne) as (g & Hg_in & Hgi & Hgj & Hgl & Hloc & _).
+        rewrite H; simpl. rewrite session_cookie_flags, clear_cookie_flags.  rewrite Hrok, Hfr. simpl.
+        assert (Hown : own_flow_presented m j (r_irt r) = true).
+        { unfold own_flow_presented. apply existsb_exists. exists f. split; [exact Hf|].
+          rewrite Hl, andb_true_r. apply andb_true_iff. split; [rewrite Hi; apply String.eqb_refl|].
+          apply existsb_exists. eexists. split; [exact Hin|]. simpl. rewrite String.eqb_refl, wire_eqb_refl. reflexivity. }
+        rewrite Hown. simpl.
+        assert (En : nonempty relay = true) by (apply nonempty_iff; exact Hne). rewrite En.
+        unfold relay_flow. rewrite Hgj.
+        destruct (find _ (mw_flows m)) as [g'|] eqn:Efind.
+        -- apply find_some_in in Efind. destruct Efind as [Hg' Hp].
+           apply andb_true_iff in Hp; destruct Hp as [Hp _]. apply andb_true_iff in Hp; destruct Hp as [_ Hw].
+           apply wire_eqb_eq in Hw.
+           assert (Eu : fl_uri g = fl_uri g') by (eapply flow_uri_of_cookie; [apply (Hok g Hg_in) | apply (Hok g' Hg') | exact Hw]).
+           rewrite Hrp, H in Hloc. simpl in Hloc. injection Hloc as Hloc.
+           rewrite Hloc, Eu, !String.eqb_refl. reflexivity.
+        -- exfalso. eapply find_none in Efind; [|exact Hg_in]. simpl in Efind.
+           rewrite Hgi, String.eqb_refl, wire_eqb_refl, Hgl in Efind. discriminate.
+Qed.
+
+Lemma model_step_spec m act :
+  flows_ok m -> cfg_wf (mw_cfg m) ->
+  match act with Deliver _ j _ _ => jar_ok m j | _ => True end ->
+  spec_step m act (project (snd (step m act))) = true.
+Proof.
+  intros Hok Hcw Hj. destruct act as [u idx rid | u j idx rid | r j relay h | dt].
+  - cbn [spec_step step].
+    change (snd (let '(rp, fl) := start_flow (mw_cfg m) (mw_clock m) u idx rid in (issue m (rp_cookies rp) (Some fl), rp)))
+      with (fst (start_flow (mw_cfg m) (mw_clock m) u idx rid)).
+    apply start_flow_spec, Hcw.
+  - cbn [spec_step step]. destruct (get_session _ _ _ _) eqn:Eg.
+    + reflexivity.
+    + change (snd (let '(rp, fl) := start_flow (mw_cfg m) (mw_clock m) u idx rid in (issue m (rp_cookies rp) (Some fl), rp)))
+        with (fst (start_flow (mw_cfg m) (mw_clock m) u idx rid)).
+      pose proof (start_flow_spec (mw_cfg m) (mw_clock m) u idx rid Hcw) as H. cbv zeta in H.
+      apply andb_true_iff in H; destruct H as [H _]. rewrite H. reflexivity.
+  - simpl step. simpl snd. apply deliver_spec; assumption.
+  - reflexivity.
+Qed.
+
+(* ---------- scripts ---------- *)
+Definition wsrc_ok (cfg : mwcfg) (s : wsrc) : bool :=
+  match s with
+  | FromIssued _ | Broken _ => true
+  | Resigned _ k => negb (key_eqb k (c_key (m_tcodec cfg)))
+  | Literal WGarbage => true
+  | Literal _ => false
+  end.
+Definition saction_ok (cfg : mwcfg) (a : saction) : bool :=
+  match a with
+  | SPage _ j _ _ | SDeliver _ j _ _ => forallb (fun nv => wsrc_ok cfg (snd nv)) j
+  | _ => true
+  end.
+
+Definition issued_ok (m : mw) : Prop := forall w, In w (mw_issued m) -> wire_ok m w.
+
+Lemma wire_ok_mono m m' w :
+  mw_cfg m' = mw_cfg m -> (forall f, In f (mw_flows m) -> In f (mw_flows m')) -> wire_ok m w -> wire_ok m' w.
+Proof.
+  intros Hc Hf H. destruct H.
+  - constructor.
+  - apply wo_other_key. rewrite Hc. assumption.
+  - apply wo_broken. assumption.
+  - apply wo_issued. apply Hf. assumption.
+  - apply wo_foreign. rewrite Hc. assumption.
+  - apply wo_session.
+Qed.
+
+Lemma step_flows_mono m a f : In f (mw_flows m) -> In f (mw_flows (fst (step m a))).
+Proof.
+  destruct a; simpl; intro H; try assumption; try (right; assumption).
+  destruct (get_session _ _ _ _); simpl; [assumption | right; assumption].
+Qed.
+
+Lemma step_issued_ok m a : issued_ok m -> issued_ok (fst (step m a)).
+Proof.
+  intros H w Hw.
+  assert (Hold : forall w, In w (mw_issued m) -> wire_ok (fst (step m a)) w).
+  { intros w0 H0. eapply wire_ok_mono; [apply step_cfg | intros f; apply step_flows_mono | apply H, H0]. }
+  destruct a as [u idx rid | u j idx rid | r j relay h | dt]; simpl in *.
+  - apply in_app_or in Hw. destruct Hw as [Hw|[<-|[]]]; [apply Hold, Hw|].
+    apply (wo_issued _ (snd (start_flow (mw_cfg m) (mw_clock m) u idx rid))). left; reflexivity.
+  - destruct (get_session _ _ _ _) eqn:Eg; simpl in *; [apply H, Hw|].
+    apply in_app_or in Hw. destruct Hw as [Hw|[<-|[]]].
+    + apply Hold, Hw.
+    + apply (wo_issued _ (snd (start_flow (mw_cfg m) (mw_clock m) u idx rid))). left; reflexivity.
+  - apply in_app_or in Hw. destruct Hw as [Hw|Hw]; [apply Hold, Hw|].
+    apply in_map_iff in Hw. destruct Hw as (ck & <- & Hck).
+    destruct (deliver_cases (mw_cfg m) (mw_clock m) r j relay h) as [E|(_ & [(_ & E)|[(_ & tr & _ & E)|(_ & _ & _ & E)]])];
+      rewrite E in Hck; simpl in Hck.
+    + contradiction.
+    + destruct Hck as [<-|[]]. apply wo_session.
+    + destruct Hck as [<-|[<-|[]]]; [apply wo_garbage | apply wo_session].
+    + destruct Hck as [<-|[]]. apply wo_session.
+  - apply Hold, Hw.
+Qed.
+
+Lemma nth_issued_ok m k : issued_ok m -> wire_ok m (nth k (mw_issued m) WGarbage).
+Proof.
+  intro H. destruct (nth_in_or_default k (mw_issued m) WGarbage) as [Hi0 | Hd]; [apply H, Hi0 | rewrite Hd; constructor].
+Qed.
+
+Lemma resolve_ok m s : issued_ok m -> wsrc_ok (mw_cfg m) s = true -> wire_ok m (resolve m s).
+Proof.
+  intros Hi Hs. destruct s as [k | k | k by_ | w]; simpl in *.
+  - apply nth_issued_ok, Hi.
+  - destruct (nth k (mw_issued m) WGarbage); simpl; [apply wo_broken; reflexivity | constructor].
+  - destruct (nth k (mw_issued m) WGarbage); simpl; [|constructor].
+    apply wo_other_key. simpl. intro E. rewrite E, key_eqb_refl in Hs. discriminate.
+  - destruct w; [discriminate | constructor].
+Qed.
+
+Lemma resolve_jar_ok m j : issued_ok m -> forallb (fun nv => wsrc_ok (mw_cfg m) (snd nv)) j = true -> jar_ok m (resolve_jar m j).
+Proof.
+  intros Hi Hj n w Hin. unfold resolve_jar in Hin. apply in_map_iff in Hin. destruct Hin as ([n' s] & E & Hs).
+  injection E as _ <-. rewrite forallb_forall in Hj. apply resolve_ok; [exact Hi | apply (Hj _ Hs)].
+Qed.
+
+(* C17 check soundness: on a well-formed script, agreement of every observed
+   reply with the model implies the property monitor accepts every step *)
+Theorem walk_sound s : forall m obs,
+  flows_ok m -> cfg_wf (mw_cfg m) -> issued_ok m ->
+  forallb (saction_ok (mw_cfg m)) s = true ->
+  fst (walk m s obs) = true -> snd (walk m s obs) = true.
+Proof.
+  induction s as [|a s IH]; intros m obs Hok Hcw Hi Hs Hag.
+  - destruct obs; reflexivity.
+  - destruct obs as [|o obs]; [reflexivity|].
+    simpl in Hs. apply andb_true_iff in Hs; destruct Hs as [Ha Hs].
+    simpl in *. destruct (step m (resolve_action m a)) as [m' rp] eqn:Hstep.
+    destruct (walk m' s obs) as [ag' sp'] eqn:Hw. simpl in *.
+    apply andb_true_iff in Hag; destruct Hag as [Hag Hag'].
+    apply oreply_eqb_eq in Hag. subst o.
+    assert (Hm' : m' = fst (step m (resolve_action m a))) by (rewrite Hstep; reflexivity).
+    assert (Hrp : rp = snd (step m (resolve_action m a))) by (rewrite Hstep; reflexivity).
+    assert (Hc' : mw_cfg m' = mw_cfg m) by (rewrite Hm'; apply step_cfg).
+    apply andb_true_iff. split.
+    + rewrite Hrp. apply model_step_spec; try assumption.
+      destruct a; simpl; try exact I. apply resolve_jar_ok; assumption.
+    + specialize (IH m' obs). rewrite Hw in IH. simpl in IH. apply IH; try assumption.
+      * rewrite Hm'. apply step_flows_ok, Hok.
+      * rewrite Hc'. exact Hcw.
+      * rewrite Hm'. apply step_issued_ok, Hi.
+      * rewrite Hc'. exact Hs.
+Qed.
+
+Theorem hcase_check_sound c :
+  cfg_wf (hc_cfg c) -> forallb (saction_ok (hc_cfg c)) (hc_script c) = true ->
+  hcase_agree c = true -> hcase_spec c = true.
+Proof.
+  intros Hcw Hs. unfold hcase_agree, hcase_spec. apply walk_sound; try assumption.
+  - apply init_flows_ok.
+  - intros w [].
+Qed.
